@@ -276,6 +276,21 @@ package router
 //@   callsite cacheKey?: [C07:key-of-this-question-and-group] arg0 == q && arg1 == gmark
 //@   callsite Get?: [C07:lookup-under-that-key] arg0 == c.memory ==> sameSlice(arg1, gkey, 0, len(gkey))
 //@   callsite SubtractTTL?: [C08:aged-copy] arg0 == gm && gm != nil
+// the redis tier: looked up under the same key; a hit is promoted to the memory tier under that key with the time
+// stamps it was stored with (not a new lifetime) and only if absent; whichever tier hits, the copy is aged by the time
+// since ITS stored time and those time stamps are the ones returned
+//@   ghost gS time.Time = nil
+//@   ghost gX time.Time = nil
+//@   ghost gRV []byte = nil
+//@   aftercall MemoryCache.Get?: gS = ret1
+//@   aftercall MemoryCache.Get?: gX = ret2
+//@   aftercall RedisCache.Get?: gS = ret0
+//@   aftercall RedisCache.Get?: gX = ret1
+//@   aftercall RedisCache.Get?: gRV = ret2
+//@   callsite RedisCache.Get?: [C07:redis-lookup-under-that-key] arg0 == c.redis && sameSlice(arg2, gkey, 0, len(gkey))
+//@   callsite Store?: [C07,C08:redis-hit-promoted-under-its-key-with-its-own-time-stamps] arg0 == c.memory && sameSlice(arg1, gkey, 0, len(gkey)) && arg2 == gS && arg3 == gX && arg4 == gRV && arg5 == true
+//@   callsite Since?: [C08:aged-by-the-time-since-the-hit-was-stored] arg0 == gS
+//@   ensures [C08:time-stamps-of-the-hit] m != nil ==> storedTime == gS && expireTime == gX
 // The client group of an address: the label of the configured range that contains it, "" when no range does, when
 // the address is invalid or when no ranges are configured (ranges are disjoint, so the label is unique).
 //@ spec func markerOK(m *ipMarker) bool = m.l != nil && listOK(m.l) && forall(k, 0, len(m.l.e), 0 <= m.l.e[k].v && m.l.e[k].v < len(m.s))
